@@ -40,20 +40,22 @@ type Scenario struct {
 	Sequential bool     `json:"sequential"`
 	Rounds     int      `json:"rounds"`
 	Register   int      `json:"register,omitempty"`
+	Receiving  int      `json:"receiving,omitempty"`
 }
 
 type Outcome struct {
-	Scenario   int                 `json:"scenario"`
-	Round      int                 `json:"round"`
-	Statuses   map[string]int      `json:"statuses"`
-	Channels   []string            `json:"channels"`
-	Goroutines int                 `json:"goroutines"`
-	Tracks     map[string][]string `json:"tracks"`
-	Files      map[string][]string `json:"files"`
-	MPDs       map[string]bool     `json:"mpds"`
-	Masters    map[string]string   `json:"masters"`
-	TrIDs      map[string][]string `json:"trids"`
-	RegOutcomes map[string]int     `json:"reg_outcomes,omitempty"`
+	Scenario    int                 `json:"scenario"`
+	Round       int                 `json:"round"`
+	Statuses    map[string]int      `json:"statuses"`
+	Channels    []string            `json:"channels"`
+	Goroutines  int                 `json:"goroutines"`
+	Tracks      map[string][]string `json:"tracks"`
+	Files       map[string][]string `json:"files"`
+	MPDs        map[string]bool     `json:"mpds"`
+	Masters     map[string]string   `json:"masters"`
+	TrIDs       map[string][]string `json:"trids"`
+	RegOutcomes map[string]int      `json:"reg_outcomes,omitempty"`
+	Hangs       int                 `json:"hangs,omitempty"`
 }
 
 type race struct {
@@ -143,6 +145,14 @@ func scenarios(c *lib.Ctx, rng *rand.Rand) []Scenario {
 		scs = append(scs, Scenario{Tracks: oneVideoTracks(n), Register: reg})
 	}
 	scs = append(scs, Scenario{Tracks: mkTracks(5), Register: reg}) // two video tracks: either may be the master
+	// tracks that register (and re-send their init) while media chunks of the first track are being processed
+	recvRounds := 150
+	if c.Thorough() {
+		recvRounds = 1500
+	}
+	for _, n := range []int{2, 4, 8} {
+		scs = append(scs, Scenario{Tracks: oneVideoTracks(n), Receiving: recvRounds})
+	}
 	return scs
 }
 
@@ -317,6 +327,9 @@ func run(c *lib.Ctx) error {
 		if ref.Register > 0 {
 			ref.Register = 1
 		}
+		if ref.Receiving > 0 {
+			continue // liveness has no sequential reference
+		}
 		all = append(all, ref)
 	}
 	scPath := filepath.Join(c.Out, "c19_scenarios.json")
@@ -390,6 +403,20 @@ func run(c *lib.Ctx) error {
 		}
 		c.Count(fmt.Sprintf("%s:%dch-x-%dtr:auth=%v:repcfg=%v", kind, len(sc.Channels), len(sc.Tracks), sc.Auth, sc.RepCfg))
 		distinct[fmt.Sprintf("%d/%v", o.Scenario, o)] = true
+		if sc.Receiving > 0 {
+			if o.Hangs > 0 {
+				c.Fail(id, "registration-during-media:hang", fmt.Sprintf("%d round(s) of tracks registering while chunk messages of another track are processed did not finish within 3 s: an upload never returns or the channel goroutine no longer takes messages", o.Hangs), sc)
+			}
+			adm := admissibleMasters(sc.Tracks)
+			for out, n := range o.RegOutcomes {
+				var master string
+				fmt.Sscanf(out, "master=%s", &master)
+				if !adm[master] {
+					c.Fail(id, "registration-not-sequential", fmt.Sprintf("%d rounds ended with %s; a sequential order gives a master in %v", n, out, keysOf(adm)), sc)
+				}
+			}
+			continue
+		}
 		if sc.Register > 0 {
 			adm := admissibleMasters(sc.Tracks)
 			var names []string
@@ -456,6 +483,7 @@ func run(c *lib.Ctx) error {
 			}
 		}
 	}
+	staticLockOrder(c)
 	for _, x := range races {
 		c.Fail("races", "race:"+x.Field+":"+x.F1+"|"+x.F2, "data race reported by the Go race detector: "+x.Src, map[string]any{"race": x})
 	}
